@@ -132,7 +132,8 @@ Section Prefix.
     ready st -> p_loaded st = L ->
     exists stD, steps T st (mk TIdentifier name :: toks_test t ++ [tk_lcb]) = Some stD /\
                 ready stD /\ p_loaded stD = L /\ prev_name (place_of stD) = None /\
-                p_brackets stD = BRCBracket :: p_brackets st.
+                p_brackets stD = BRCBracket :: p_brackets st /\
+                exists C, p_stack stD = C :: p_stack st /\ f_def C = d /\ p_result stD = p_result st.
   Proof.
     intros L name d a t nt st Hg Hty Hch Ha Ht1 Hwt Hr Hl.
     pose proof (run_test T L HT t nt Hwt) as IHt.
@@ -184,7 +185,8 @@ Section Prefix.
     split; [unfold ready, stD; pcbn; rewrite SB; split; [reflexivity|]; split; [reflexivity|]; split; [rewrite G2; exact Hch|exact HntC2]|].
     split; [unfold stD; pcbn; congruence|].
     split; [unfold place_of, stD; pcbn; rewrite SB; cbn; rewrite G7; reflexivity|].
-    unfold stD. pcbn. rewrite V1. reflexivity.
+    split; [unfold stD; pcbn; rewrite V1; reflexivity|].
+    exists C2. unfold stD. pcbn. rewrite SB, V4. auto.
   Qed.
 
   (* `name {` for a control without arguments (else) *)
@@ -193,7 +195,8 @@ Section Prefix.
     d_args d = [] -> ready st -> p_loaded st = L ->
     exists stD, steps T st [mk TIdentifier name; tk_lcb] = Some stD /\
                 ready stD /\ p_loaded stD = L /\ prev_name (place_of stD) = None /\
-                p_brackets stD = BRCBracket :: p_brackets st.
+                p_brackets stD = BRCBracket :: p_brackets st /\
+                exists C, p_stack stD = C :: p_stack st /\ f_def C = d /\ p_result stD = p_result st.
   Proof.
     intros L name d st Hg Hty Hch Ha Hr Hl.
     pose proof Hr as (Hc & He & Ho).
@@ -217,7 +220,8 @@ Section Prefix.
     split; [unfold ready, stD, stC; pcbn; split; [reflexivity|]; split; [reflexivity|]; split; [exact Hch|exact HntC]|].
     split; [unfold stD, stC; pcbn; exact Hl|].
     split; [unfold place_of, stD, stC; pcbn; reflexivity|].
-    unfold stD, stC. pcbn. reflexivity.
+    split; [unfold stD, stC; pcbn; reflexivity|].
+    exists C. unfold stD, stC. pcbn. auto.
   Qed.
 
   (* prefixes: complete commands and block openers, nested to any depth.  wf_prefix toks L prev depth *)
@@ -259,11 +263,11 @@ Section Prefix.
       split; [unfold ready; rewrite Hst; auto|].
       split; [exact L2|]. split; [rewrite PL2; exact Hprev'|]. rewrite B2. auto.
     - destruct IH as (st & S1 & R1 & L1 & P1 & B1 & A1).
-      destruct (open_ctl L name d a t nt st Hg Hty Hch Ha Ht1 Hwt R1 L1) as (stD & S2 & R2 & L2 & P2 & B2).
+      destruct (open_ctl L name d a t nt st Hg Hty Hch Ha Ht1 Hwt R1 L1) as (stD & S2 & R2 & L2 & P2 & B2 & _).
       exists stD. rewrite steps_app, S1, S2. rewrite B2. cbn [length].
       split; [reflexivity|]. split; [exact R2|]. split; [exact L2|]. split; [exact P2|]. split; [congruence|]. constructor; [reflexivity|exact A1].
     - destruct IH as (st & S1 & R1 & L1 & P1 & B1 & A1).
-      destruct (open_else L name d st Hg Hty Hch Ha R1 L1) as (stD & S2 & R2 & L2 & P2 & B2).
+      destruct (open_else L name d st Hg Hty Hch Ha R1 L1) as (stD & S2 & R2 & L2 & P2 & B2 & _).
       exists stD. rewrite steps_app, S1, S2. rewrite B2. cbn [length].
       split; [reflexivity|]. split; [exact R2|]. split; [exact L2|]. split; [exact P2|]. split; [congruence|]. constructor; [reflexivity|exact A1].
   Qed.
@@ -701,6 +705,65 @@ Section Texts.
         apply (ident_not_test T st1 t _ _ d' Hc Es); [rewrite E1; exact I|exact Hk|rewrite Ld1; exact Eg|exact Hgt].
       + exists e. apply (reject_after_prefix T text (pre ++ [tn]) t rest st1 _ Hl' S2).
         apply (ident_unknown T st1 t _ _ e Hc Es); [rewrite E1; exact I|exact Hk|rewrite Ld1; exact Eg].
+  Qed.
+  (* ---- elsif / else not after if / elsif: detected when the command is closed *)
+
+  Lemma close_misplaced : forall stD C S0 b L body ns L' t,
+    ready stD -> p_stack stD = C :: S0 -> p_loaded stD = L -> prev_name (place_of stD) = None ->
+    p_brackets stD = BRCBracket :: b ->
+    wf_cmds T L None body ns L' ->
+    follows_name (f_def C) (prev_name (S0, p_hash stD, p_result stD)) = false ->
+    t_kind t = TRightCBracket ->
+    exists stE, steps T stD (flat_map toks_cmd body) = Some stE /\ stops (process T stE t) EMustFollow.
+  Proof.
+    intros stD C S0 b L body ns L' t Hr Es Hl Hp Hb Hw Hfol Hk.
+    destruct (run_cmds T HT L None body ns L' Hw stD Hr Hl Hp) as (stE & PE & CE & EE & LE & BE & PLE).
+    exists stE. split; [exact PE|]. left.
+    unfold place_of in PLE. rewrite Es, fold_emit_nested in PLE. inversion PLE as [[SE HE RE]].
+    destruct (add_children_facts ns C) as (F1 & _).
+    unfold process. rewrite Hk, EE. unfold m_command. rewrite CE, Hk. unfold pop_bracket. rewrite BE, Hb. cbn [bracket_eqb].
+    unfold up. pcbn. rewrite SE, F1, RE.
+    unfold follows_name, prev_name in Hfol.
+    destruct (d_must_follow (f_def C)) as [mf|]; [|discriminate].
+    destruct S0 as [|parent rest'].
+    - destruct (last_opt (p_result stD)) as [n|]; cbn [option_map] in Hfol; [rewrite Hfol|]; reflexivity.
+    - destruct (last_opt (f_children parent)) as [n|]; cbn [option_map] in Hfol; [rewrite Hfol|]; reflexivity.
+  Qed.
+
+  (* `elsif <test> { body }` / `else { body }` where the previous command of the block is not one they may follow:
+     rejected at the closing brace *)
+  Theorem misplaced_follower_rejected : forall text pre tn otoks btoks t rest L prev k d body ns L',
+    wf_prefix T (map strip_pos pre) L prev k ->
+    fst (lex text) = pre ++ tn :: otoks ++ btoks ++ t :: rest ->
+    t_kind tn = TIdentifier -> get_command_instance T L (t_val tn) = inl d ->
+    d_type d = CControl -> d_accept_children d = true ->
+    follows_name d prev = false ->
+    ((exists a tst nt, d_args d = [a] /\ is_t1 a = true /\ wf_test T L tst nt /\ map strip_pos otoks = toks_test tst ++ [tk_lcb]) \/
+     (d_args d = [] /\ map strip_pos otoks = [tk_lcb])) ->
+    wf_cmds T L None body ns L' -> map strip_pos btoks = flat_map toks_cmd body ->
+    t_kind t = TRightCBracket ->
+    parse T text = Reject EMustFollow (t_pos t) (length (t_val t)).
+  Proof.
+    intros text pre tn otoks btoks t rest L prev k d body ns L' Hp Hl Hkn Hg Hty Hch Hfol Hopen Hw Hbt Hk.
+    destruct (prefix_ready T HT _ L prev k Hp) as (st & S1 & R1 & L1 & P1 & _).
+    assert (Etn : strip_pos tn = mk TIdentifier (t_val tn)) by (destruct tn; cbn in *; unfold strip_pos, mk; cbn; congruence).
+    assert (Hopened : exists stD C, steps T st (strip_pos tn :: map strip_pos otoks) = Some stD /\ ready stD /\ p_loaded stD = L /\
+                        prev_name (place_of stD) = None /\ p_brackets stD = BRCBracket :: p_brackets st /\
+                        p_stack stD = C :: p_stack st /\ f_def C = d /\ p_result stD = p_result st).
+    { rewrite Etn. destruct Hopen as [(a & tst & nt & Ha & Ht1 & Hwt & Eo)|(Ha & Eo)]; rewrite Eo.
+      - destruct (open_ctl T HT L (t_val tn) d a tst nt st Hg Hty Hch Ha Ht1 Hwt R1 L1) as (stD & S2 & R2 & L2 & P2 & B2 & C & X1 & X2 & X3).
+        exists stD, C. auto 10.
+      - destruct (open_else T HT L (t_val tn) d st Hg Hty Hch Ha R1 L1) as (stD & S2 & R2 & L2 & P2 & B2 & C & X1 & X2 & X3).
+        exists stD, C. auto 10. }
+    destruct Hopened as (stD & C & S2 & R2 & L2 & P2 & B2 & X1 & X2 & X3).
+    assert (Hfol' : follows_name (f_def C) (prev_name (p_stack st, p_hash stD, p_result stD)) = false).
+    { rewrite X2, X3. unfold prev_name in *. unfold place_of in P1. rewrite <- Hfol, <- P1.
+      destruct (p_stack st); reflexivity. }
+    destruct (close_misplaced stD C (p_stack st) (p_brackets st) L body ns L' t R2 X1 L2 P2 B2 Hw Hfol' Hk) as (stE & S3 & X).
+    assert (Hl' : fst (lex text) = (pre ++ tn :: otoks ++ btoks) ++ t :: rest).
+    { rewrite Hl. repeat (rewrite <- app_assoc; cbn [app]). reflexivity. }
+    apply (reject_after_prefix T text (pre ++ tn :: otoks ++ btoks) t rest stE EMustFollow Hl'); [|exact X].
+    rewrite map_app, steps_app, S1. cbn [map]. rewrite map_app, app_comm_cons, steps_app, S2, Hbt. exact S3.
   Qed.
 End Texts.
 
